@@ -231,6 +231,36 @@ def run_live_handler(ck, stats):
                                  {"units": [pre, p], "jit": jit, "kind": "live-handler", "got": got, "want": want}, tag="handler")
 
 
+def run_boundary_containers(ck, stats):
+    """Reachable mutable containers at their boundary sizes (no element, one element), held by a global, a box, a list,
+    a hash map and a closure, across full collections and enough vector / box allocations for the allocators to hand
+    out every slot they consider free: sizes and contents must be unchanged, and a write through one of them must not
+    show up in another."""
+    pre = ("(define c04-e0 (mutable-vector)) (define c04-e1 (box (mutable-vector))) (define c04-e2 (list (mutable-vector) (mutable-vector 7)))\n"
+           "(define c04-e3 (hash 'k (mutable-vector))) (define c04-e4 (let ([v (mutable-vector)]) (lambda () v)))\n"
+           "(define c04-e5 (make-vector 0 0)) (define c04-e6 (mutable-vector (mutable-vector))) (define c04-b0 (box '())) (define c04-b1 (box (box '())))\n"
+           "(define (c04-vchurn n) (let loop ([i 0] [last #f]) (if (< i n) (loop (+ i 1) (vector i i i)) last)))\n"
+           "(define (c04-bchurn n) (let loop ([i 0] [last #f]) (if (< i n) (loop (+ i 1) (box i)) last)))\n"
+           "(define (c04-lens) (list (vector-length c04-e0) (vector-length (unbox c04-e1)) (vector-length (car c04-e2)) (vector->list (cadr c04-e2)) "
+           "(vector-length (hash-ref c04-e3 'k)) (vector-length (c04-e4)) (vector-length c04-e5) (vector-length (vector-ref c04-e6 0)) "
+           "(unbox c04-b0) (unbox (unbox c04-b1))))")
+    units = [pre, "(c04-lens)", "(#%gc-collect)", "(define c04-s1 (c04-vchurn 9000))", "(define c04-s2 (c04-bchurn 9000))", "(c04-lens)",
+             "(#%gc-collect)", "(define c04-s3 (c04-vchurn 40000))", "(define c04-s4 (c04-bchurn 40000))", "(c04-lens)",
+             "(begin (vector-push! c04-e0 'mine) (set-box! c04-b0 'mine) (list (vector->list c04-e0) (c04-lens)))"]
+    want = "(I0 I0 I0 (I7) I0 I0 I0 I0 () ())"
+    want_last = "(('\"mine\") (I1 I0 I0 (I7) I0 I0 I0 I0 '\"mine\" ()))"
+    for jit in (True, False):
+        res = ck.eval_cases([units], env=({} if jit else {"STEEL_JIT": "false"}), fresh=True, batch=1, timeout_per_batch=240)
+        r = res[0]
+        ck.cov["evaluations"] += 1
+        stats["boundary_container_runs"] = stats.get("boundary_container_runs", 0) + 1
+        obs = [(x.get("ok") or [json.dumps(x)[:120]])[-1] for x in r]
+        got = [obs[i] if i < len(obs) else "MISSING" for i in (1, 5, 9, 10)]
+        if got != [want, want, want, want_last]:
+            ck.failing_input("reachable boundary-size containers across collections: observed %s, stored %s" % (got, [want, want, want, want_last]),
+                             {"units": units, "jit": jit, "kind": "boundary-containers", "got": got, "want": [want, want, want, want_last]}, tag="boundary")
+
+
 def run(ck):
     ck.cov["trusted_base"] = [
         "Coq 8.16.1 kernel, coqc; vm_compute for model evaluation",
@@ -274,6 +304,7 @@ def run(ck):
         check_batch(ck, scripts, env, "chunk=%(chunk)d every=%(every)d jit=%(jit)s" % env, stats)
     run_recycle(ck, stats)
     run_live_handler(ck, stats)
+    run_boundary_containers(ck, stats)
     # wide containers: more pending children than the marker's local queue holds (generated capacity)
     queue_ok = all(facts[k] for k in ("pq_spill_enqueues", "pq_local_enqueues", "pq_drain_both", "pq_roots_enqueued"))
     picks = [("mvec", 0, facts["pq_local_capacity"] + 904, {})] + H.wide_picks(ck.rng, ck.tier, force_all=not queue_ok)
